@@ -20,6 +20,8 @@ pub enum MVal {
     F(u64),
     /// `u64?` element
     OptInt(Option<u64>),
+    /// `String?` element
+    OptStr(Option<String>),
 }
 
 pub type ListId = usize;
@@ -137,6 +139,7 @@ fn dbg_val(heap: &Heap, v: &MVal, out: &mut String) {
         MVal::Ref(l) => dbg_list(heap, *l, out),
         MVal::F(b) => out.push_str(&format!("{:?}", f64::from_bits(*b))),
         MVal::OptInt(o) => out.push_str(&format!("{o:?}")),
+        MVal::OptStr(o) => out.push_str(&format!("{o:?}")),
     }
 }
 pub fn dbg_list(heap: &Heap, l: ListId, out: &mut String) {
